@@ -117,6 +117,34 @@ def judge(case):
     return v
 
 
+@st.composite
+def many_points_st(draw):
+    """A small basis evaluated on 1000-4100 points (an implementation that works in blocks must get every block right)."""
+    shells = draw(gen.basis(nmin=1, nmax=2, lmax=3, kmax=2, mmax=2, halves=(0.5, 2.0)))
+    npts = draw(st.sampled_from([1000, 1023, 1024, 1025, 2049, 4097]))
+    scale = draw(st.floats(0.3, 3.0, allow_nan=False))
+    ph = [draw(st.floats(0.1, 3.0, allow_nan=False)) for _ in range(3)]
+    orders = draw(st.lists(st.sampled_from(ALL), min_size=1, max_size=2, unique=True))
+    return {"shells": shells, "grid": {"n": npts, "scale": scale, "phase": ph}, "orders": [list(o) for o in orders], "transform": None}
+
+
+def judge_many(case):
+    g = case["grid"]
+    i = np.arange(g["n"], dtype=float)
+    c = np.array(case["shells"][0]["coord"])
+    pts = c[None, :] + g["scale"] * np.stack([np.sin(i * g["phase"][0]), np.cos(i * g["phase"][1]), np.sin(i * g["phase"][2] + 1.0)], axis=1)
+    pts[:: 97] = c  # every 97th point sits on the centre
+    v = judge(dict(case, points=pts.tolist()))
+    v.classes.append("points-%d" % g["n"])
+    v.nontrivial = True
+    return v
+
+
+def shards_many(tier):
+    k = 4 if tier == "quick" else 24
+    return [{"id": i, "n": 1, "cost": 20} for i in range(k)]
+
+
 def shards(tier):
     k, n = (16, 15) if tier == "quick" else (64, 120)
     return [{"id": i, "n": n, "npts": 8 if tier == "quick" else 50} for i in range(k)]
@@ -130,5 +158,6 @@ def shards_sweep(tier):
 SUBCHECKS = [
     SubCheck("values", judge, shards, strategy=lambda sh: case_st(npts=sh.get("npts", 8))),
     SubCheck("sweep125", judge, shards_sweep, strategy=lambda sh: case_st(sweep=True, lmax=4)),
+    SubCheck("many-points", judge_many, shards_many, strategy=lambda sh: many_points_st()),
 ]
 EXHAUSTIVE = {"sweep125": "all 125 order triples (0..4)^3 for each swept basis"}
